@@ -36,7 +36,8 @@ ASSUMPTIONS = [
 ]
 FLOORS = {'rounding_calls': 5000, 'elementary_calls': 2000,
           'domain_calls': 30, 'contract_evals': 5000, 'formula_calls': 300,
-          'functions_seen': 30, 'host_decimal_context_calls': 500}
+          'functions_seen': 30, 'host_decimal_context_calls': 500,
+          'edge_magnitude_calls': 300, 'near_whole_result_calls': 300}
 ANCHOR_FUNCS = {'xlcalculator/xlfunctions/math.py': [
     'ROUND', 'ROUNDUP', 'ROUNDDOWN', 'TRUNC', 'INT', 'CEILING', 'FLOOR',
     'EVEN', '_round', 'MOD', 'LN', 'LOG', 'LOG10', 'SQRT', 'ATAN2', 'FACT',
@@ -380,6 +381,82 @@ def run(ctx):
             R.both('ATAN2', (a, b), want, 'elementary',
                    ('ATAN2', sign_class(a), sign_class(b)), tol_ulp=8,
                    formula=rng.random() < 0.05)
+    # ---- arguments at the edges of the double range, and next to the points
+    # where a result is a whole number ------------------------------------------
+    # A result beyond the largest double is outside the function's domain
+    # (an error value, not an infinity); a tiny result is the correctly
+    # rounded (possibly subnormal) double.
+    DBL_MAX = 1.7976931348623157e308
+    if ctx.shard < 4 or thorough:
+        edges = [5e-324, 1e-320, 1e-310, 2.2250738585072014e-308, 1e-300,
+                 1e-160, 1e154, 1.4e154, 1e300, 3.1e306, 3.2e306, 5.7e307,
+                 1e308, DBL_MAX, 709.78, 709.79, 710.4, 710.5, -745.1,
+                 -745.2, 88.7, 1e16, 1e22]
+        edges = edges + [-v for v in edges]
+        order = list(unary.items())
+        rng.shuffle(order)      # huge and tiny arguments in mixed order
+        for fname, (fn, dom) in order:
+            xs = list(edges)
+            rng.shuffle(xs)
+            for x in xs:
+                x = float(x)
+                if dom is not None and not dom(x) and fname not in (
+                        'EXP', 'COSH'):
+                    continue
+                if fname in ('SIN', 'COS', 'TAN') and abs(x) > 1e6:
+                    continue
+                try:
+                    w = fn(mp.mpf(x))
+                    if abs(w) > mp.mpf(DBL_MAX) * (1 + mp.mpf(2) ** -54):
+                        want = 'error'
+                    else:
+                        want = float(w)
+                except Exception:  # noqa
+                    continue
+                ctx.event('edge_magnitude_calls')
+                R.both(fname, (x,), want,
+                       'domain' if want == 'error' else 'elementary',
+                       (fname, 'edge', x), tol_ulp=8,
+                       tags=('edge-magnitude',))
+        # next to whole-number results: base^k * (1 + d)
+        for base in (2.0, 3.0, 10.0):
+            for k in (-12, -3, -1, 1, 2, 3, 10, 40):
+                for d in (0, 1e-9, -1e-9, 3e-10, -2e-11, 4e-13, -1e-15):
+                    x = float(base ** k * (1 + d))
+                    if x <= 0:
+                        continue
+                    want = float(mp.log(mp.mpf(x)) / mp.log(mp.mpf(base)))
+                    ctx.event('near_whole_result_calls')
+                    R.both('LOG', (x, base), want, 'elementary',
+                           ('LOG', 'near-power', base, k, d), tol_ulp=16)
+                    if base == 10.0:
+                        R.both('LOG10', (x,), float(mp.log10(mp.mpf(x))),
+                               'elementary', ('LOG10', 'near-power', k, d),
+                               tol_ulp=8)
+                        R.both('LOG', (x,), float(mp.log10(mp.mpf(x))),
+                               'elementary', ('LOG', 'default-base', k, d),
+                               tol_ulp=16)
+        for r_ in (2.0, 3.0, 7.0, 12.0, 1e3, 1e8):
+            for d in (0, 1e-9, -1e-9, 2e-12, -3e-14):
+                x = float(r_ * r_ * (1 + d))
+                R.both('SQRT', (x,), float(mp.sqrt(mp.mpf(x))), 'elementary',
+                       ('SQRT', 'near-square', r_, d), tol_ulp=8)
+                y_ = float(math.log(r_) * (1 + d))
+                R.both('EXP', (y_,), float(mp.exp(mp.mpf(y_))), 'elementary',
+                       ('EXP', 'near-whole', r_, d), tol_ulp=8)
+        for d in (0, 1e-9, 1e-12, 1e-15, 3e-16):
+            for fname in ('ASIN', 'ACOS'):
+                for sgn in (1, -1):
+                    x = sgn * (1 - d)
+                    R.both(fname, (x,), float(unary[fname][0](mp.mpf(x))),
+                           'elementary', (fname, 'near-one', sgn, d),
+                           tol_ulp=8)
+            x = 1 + d
+            R.both('LN', (x,), float(mp.log(mp.mpf(x))), 'elementary',
+                   ('LN', 'near-one', d), tol_ulp=8)
+            R.both('ACOSH', (x,), float(mp.acosh(mp.mpf(x))), 'elementary',
+                   ('ACOSH', 'near-one', d), tol_ulp=8)
+
     for x in (1.0, -1.0, 0.0):
         for y in (1.0, -1.0, 0.0):
             if x == 0 and y == 0:
